@@ -608,17 +608,20 @@ class Interp:
             ctx.inputs[str(i)] = SInt(i)
             ctx.assume(z3.And(i >= 0, i < n))
             self._install_closed(spec, env, i)
-            if seq.guard is not None:
-                ctx.assume(seq.guard(i))
-            self.assign(st.target, seq.elem(i), env)
             env.loop_index = getattr(env, "loop_index", {})
             env.loop_index[k] = i
-            try:
-                self.exec_block(st.body, env)
-            except _Continue:
-                pass
-            except _Break:
-                return  # leaves the loop with the current state
+            present = True
+            if seq.guard is not None:
+                g = seq.guard(i)  # may fork; the element exists in the real list iff the guard holds
+                present = g if isinstance(g, bool) else ctx.decide(g)
+            if present:
+                self.assign(st.target, seq.elem(i), env)
+                try:
+                    self.exec_block(st.body, env)
+                except _Continue:
+                    pass
+                except _Break:
+                    return  # leaves the loop with the current state
             # 3. invariant re-established for i+1
             self._check_closed(spec, env, i + 1, f"loop{k}/step", qn)
             raise PathEnd()
@@ -656,8 +659,8 @@ class Interp:
 
     def same_value(self, a, b):
         """Term stating that two engine values are the same value (identity for objects)."""
-        if isinstance(a, ListTerm) and isinstance(b, ListTerm):
-            return a.t == b.t
+        if isinstance(a, ListTerm) or isinstance(b, ListTerm):
+            return self.models.listterm_of(self, a) == self.models.listterm_of(self, b)
         if isinstance(a, (Obj, SymObj, FuncV, ClassV)) or isinstance(b, (Obj, SymObj, FuncV, ClassV)):
             return self.to_val(a) == self.to_val(b)
         return self.to_val(a) == self.to_val(b)
@@ -684,6 +687,8 @@ class Interp:
                 return self.iterate(self.call_function(m, [it], {}))
         if isinstance(it, SymSeq):
             raise Unsupported(f"iteration over symbolic sequence {it.name} outside a for statement")
+        if isinstance(it, ListTerm):
+            return ListTerm(it.t)  # list(x) of a list term: a copy with the same contents
         if isinstance(it, Sym):
             raise Unsupported(f"iteration over symbolic value {it}")
         if it is None:
